@@ -13,8 +13,8 @@ use crate::rpkigen::{Builder, CaSpec, Gen, ObjSpec, PointFault, Stale, TalSpec, 
 use crate::util;
 
 #[derive(Clone, Copy, Debug, Eq, PartialEq)]
-pub enum Rej { None, NoManifest, BadManifest, StaleReject, CrlMissing }
-const REJS: [Rej; 5] = [Rej::None, Rej::NoManifest, Rej::BadManifest, Rej::StaleReject, Rej::CrlMissing];
+pub enum Rej { None, NoManifest, BadManifest, StaleReject, CrlMissing, StoredStale }
+const REJS: [Rej; 6] = [Rej::None, Rej::NoManifest, Rej::BadManifest, Rej::StaleReject, Rej::CrlMissing, Rej::StoredStale];
 
 #[derive(Clone, Copy, Debug, Eq, PartialEq)]
 pub enum Res { V4Only, V4AndV6, WholeV4, TwoBlocks }
@@ -91,7 +91,7 @@ fn tree(c: &CaseSpec) -> TreeSpec {
         Rej::None => None,
         Rej::NoManifest => Some(PointFault::NoManifest),
         Rej::BadManifest => Some(PointFault::MftBadSig),
-        Rej::StaleReject => Some(PointFault::MftStale),
+        Rej::StaleReject | Rej::StoredStale => Some(PointFault::MftStale),
         Rej::CrlMissing => Some(PointFault::CrlMissing),
     };
     if c.nested_child {
@@ -136,6 +136,14 @@ pub fn run_case(gen: &Gen, dir: std::path::PathBuf, c: &CaseSpec) -> Result<Stri
     case.write_tals(&image);
     let mut config = case.config();
     config.unsafe_vrps = c.policy;
+    if c.rej == Rej::StoredStale {
+        // A first run under stale=accept stores the (stale) point; the run
+        // under test then rejects it through the stored-data path.
+        config.stale = FilterPolicy::Accept;
+        etree::run(&config, false, &LocalExceptions::empty())
+            .map_err(|e| ("run-failed".to_string(), e))?;
+        config.stale = FilterPolicy::Reject;
+    }
     let out = etree::run(&config, false, &LocalExceptions::empty())
         .map_err(|e| ("run-failed".to_string(), e))?;
     let rejected = c.rej != Rej::None;
@@ -173,7 +181,8 @@ pub fn run(ctx: &Ctx) -> Report {
     rep.rule = "two TALs; under the first a CA holding R in {10.0.0.0/16; \
         10.0.0.0/16 + 2001:db8::/32; 0.0.0.0/0; 10.0.0.0/16 + 172.16.0.0/12} \
         whose publication point is {fine, without manifest, with a bad \
-        manifest, stale under reject, without CRL}, with and without a \
+        manifest, stale under reject, without CRL, \
+        stored earlier (under stale=accept) and rejected from the store}, with and without a \
         child CA below it; an unrelated CA under the second TAL with VRPs \
         covering R, equal to R, nested, last host address of R, first \
         address after R, before R, in the second block, IPv6 inside / \
